@@ -35,9 +35,9 @@ def pct(rng, s, p=0.3):
 def url(rng):
     u = rng.choice(SCHEMES) + b"://"
     if rng.random() < 0.25:
-        u += pct(rng, b"user", 0.2)
-        if rng.random() < 0.5:
-            u += b":" + pct(rng, b"p4ss", 0.2)
+        u += pct(rng, rng.choice([b"user", b"user", b"", b"a.b", b"u;x=1"]), 0.2)
+        if rng.random() < 0.6:
+            u += b":" + pct(rng, rng.choice([b"p4ss", b"pa:ss", b":x", b"a:b:c", b"", b"p:", b"p@ss"]), 0.2)      # RFC 3986: the user name ends at the FIRST colon
         u += b"@"
     r = rng.random()
     if r < 0.5:
@@ -79,7 +79,8 @@ def posixpath(rng):
 
 def shell(rng):
     cmds = [b"cmd /c ", b"cmd.exe /k ", b"c^m^d /c ", b'"cmd" /c ', b"C:\\Windows\\System32\\cmd /r "]
-    body = rng.choice([b"echo hi", b"m^sh^ta h^ttp^://some.url/x.hta", b"dir (a) b) c", b'echo "a^b" ^& calc', b"start^\r\nnext", b"powershell -nop -w hidden",
+    body = rng.choice([b"curl http://example.com/some/path/file.txt -o x", b"start \\\\files.example.org\\share\\tool.exe /q", b"ping 10.20.30.40 -n 1", b"(cmd /c dir) & echo (", b"type a) else (echo x & echo (gone",
+                       b"if exist a (cmd /c type a) else (echo (b", b"echo (a) (b) (c", b"echo a)b(c", b"echo hi", b"m^sh^ta h^ttp^://some.url/x.hta", b"dir (a) b) c", b'echo "a^b" ^& calc', b"start^\r\nnext", b"powershell -nop -w hidden",
                        b"for /f %i in ('powershell -c x') do echo %i", b"echo ^", b"echo a^\r", b'set x="unterminated ^ caret'])
     ps = [b"", b"powershell -enc " + base64.b64encode("Write-Host hi".encode("utf-16-le")),
           b"pwsh /e " + base64.b64encode("calc".encode("utf-16-le")), b'powershell -NoP -EncodedCommand "' + base64.b64encode("ls".encode("utf-16-le")) + b'"',
@@ -108,10 +109,61 @@ def embed(rng, s):
     return rng.choice(stacks.NEUTRAL_PRE) + s + rng.choice(stacks.NEUTRAL_SUF)
 
 
-def gen_inputs(rng, n, kinds=("indicator", "shell", "stack", "splice")):
+def plain_nested(rng):
+    """texts in which NOTHING is encoded or normalised (lower-case scheme / host, no escapes, no carets, no dot segments) but indicators nest inside undecoded
+    contexts that do not start at offset 0: child-bearing hits (URL with its parts, UNC path with its host) inside command lines / CreateObject / quoted strings"""
+    inner = rng.choice([b"http://example.com/some/path/file.txt", b"https://files.example.org/dl/tool.exe?x=1#top", b"ftp://user:pw@10.20.30.40:21/pub/a.dll", b"\\\\files.example.org\\share\\tool.exe",
+                        b"C:\\Users\\Public\\stage2\\loader.dll", b"/usr/local/lib/libfoo.so", b"admin@corp-mail.example.org", b"10.20.30.40", b"kernel32.dll"])
+    ctxs = [b"cmd /c curl %s -o x", b"cmd.exe /k start %s /q", b'x = CreateObject("%s")', b"cmd /c echo %s & ping %s", b"http://example.com/redirect?to=%s", b"cmd /c (copy %s d) & echo z"]
+    c = rng.choice(ctxs)
+    body = c.replace(b"%s", inner)
+    return rng.choice([b"run: ", b"zz ~ ", b"\n\n", b"note; "]) + body + rng.choice([b"", b" ~ zz", b"\n"])
+
+
+_REGEX_TERMS = None
+
+
+def regex_terms():
+    """the CURRENT patterns of /repo (every *_RE constant and inline literal), translated to the sampling AST; small ones only"""
+    global _REGEX_TERMS
+    if _REGEX_TERMS is None:
+        import gen_regexes
+        _REGEX_TERMS = []
+        for name, pat, _ in gen_regexes.collect():
+            try:
+                r, _ng = gen_regexes.translate(pat, name)
+            except Exception:  # noqa: BLE001   (the translator's own check reports it)
+                continue
+            _REGEX_TERMS.append((name, r))
+    return _REGEX_TERMS
+
+
+def regex_word(rng):
+    """a word of the language of one of the shipped patterns (both letter cases of case-insensitive patterns, every class member reachable), sometimes two of them"""
+    import regex_probe
+    terms = regex_terms()
+    for _ in range(5):
+        _name, r = rng.choice(terms)
+        w = regex_probe.sample(r, rng)
+        if 0 < len(w) < 2000:
+            return w
+    return b"x"
+
+
+def gen_inputs(rng, n, kinds=("indicator", "shell", "stack", "splice", "regex")):
     out = []
     for _ in range(n):
         k = rng.choice(kinds)
+        if k == "regex":
+            w = regex_word(rng)
+            r = rng.random()
+            if r < 0.5:
+                out.append(embed(rng, w))
+            elif r < 0.75:
+                out.append(embed(rng, w + rng.choice([b" ", b"\n", b"; "]) + regex_word(rng)))
+            else:
+                out.append(w)
+            continue
         if k == "indicator":
             f = rng.choice([url, url, domain, lambda r: ipv4(r, r.random() < 0.7), email, winpath, posixpath])
             parts = [f(rng) for _ in range(rng.randint(1, 3))]
